@@ -274,8 +274,12 @@ Write ==
                      ELSE proc' = SetProc(proc, m, "failed", <<"put", 0, m>>) /\ failed' = PutSeq(failed, m)
   /\ UNCHANGED <<req, work, cur, si, parsed, psrc, borrowed, bsrc, btext, canon, fetched>>
 
-Next == Pop \/ Src \/ Search \/ Sea \/ Gen \/ Borrow \/ Bor \/ BCheck \/ BSea \/ Decide \/ Write
-Spec == Init /\ [][Next]_vars /\ WF_vars(Next)
+\* compile() has returned; the self-loop lets TLC's deadlock check expose any other state without successor
+\* (a behaviour the specification cannot finish would silently drop out of the exported scenarios)
+Finished == pc = "done" /\ UNCHANGED vars
+Step == Pop \/ Src \/ Search \/ Sea \/ Gen \/ Borrow \/ Bor \/ BCheck \/ BSea \/ Decide \/ Write
+Next == Step \/ Finished
+Spec == Init /\ [][Next]_vars /\ WF_vars(Step)
 
 \* ------------------------------------------------------------ properties (see MibCompileProps)
 \* A property must hold for every value of an option that was never consulted.
